@@ -394,6 +394,8 @@ func blocking(c *common.Ctx) error {
 		}
 		if !ok {
 			c.Violate("rwmutex:blocking:hang", fmt.Sprintf("Lock(ctx) did not return within 10 s of availability/cancel (excl=%v cancel=%v)", excl, cancel), map[string]any{"kind": "blocking-hang", "excl": excl, "cancel": cancel})
+			cancelFn(nil)
+			return nil // one hang is enough; every further round would wait out the same 10 s
 		}
 		cancelFn(nil)
 		c.Evaluations++
